@@ -93,14 +93,14 @@ def closestOnMesh (p : P) (ts : List Tri) : Option (Nat × P × Rat) :=
 abbrev Box := P × P
 
 def get (p : P) (k : Nat) : Rat := match k with | 0 => p.1 | 1 => p.2.1 | _ => p.2.2
-def absR (x : Rat) : Rat := if x < 0 then -x else x
+def absQ (x : Rat) : Rat := if x < 0 then -x else x
 def pmin (a b : P) : P := (min a.1 b.1, min a.2.1 b.2.1, min a.2.2 b.2.2)
 def pmax (a b : P) : P := (max a.1 b.1, max a.2.1 b.2.1, max a.2.2 b.2.2)
 
 /-- `np.abs(ray_directions).argmax(axis=1)`: first index of the largest magnitude -/
 def argmaxAbs (d : P) : Nat :=
-  if absR d.2.1 ≤ absR d.1 ∧ absR d.2.2 ≤ absR d.1 then 0
-  else if absR d.2.2 ≤ absR d.2.1 then 1 else 2
+  if absQ d.2.1 ≤ absQ d.1 ∧ absQ d.2.2 ≤ absQ d.1 then 0
+  else if absQ d.2.2 ≤ absQ d.2.1 then 1 else 2
 
 /-- `t[t < buffer_dist] = buffer_dist` -/
 def clampLo (buf t : Rat) : Rat := if t < buf then buf else t
